@@ -1,6 +1,12 @@
 // Native replay for C16: real StreamBuffer / StreamBufferReader / File stream operators.
 #include <asl/StreamBuffer.h>
 #include <asl/File.h>
+#include <asl/Socket.h>
+#include <sys/socket.h>
+#include <unistd.h>
+#include <string.h>
+#include <thread>
+#include <vector>
 #include <stdio.h>
 #include <stdlib.h>
 #include <string>
@@ -18,6 +24,45 @@ template<class T> static int arr(Endian e, const char* what) {
 	if (sz != want) { printf("REPRODUCED File << Array<%s>(3) in order %d wrote %d bytes, want %d\n", what, (int)e, sz, want); return 1; }
 	return 0;
 }
+
+// canonical bytes of a value in a byte order (NATIVE = the host's: little-endian here)
+template<class T> static void canon(std::vector<byte>& out, T v, Endian e) { byte b[sizeof(T)]; memcpy(b, &v, sizeof(T)); bool big = e == ENDIAN_BIG; for (size_t i = 0; i < sizeof(T); i++) out.push_back(big ? b[sizeof(T) - 1 - i] : b[i]); }
+template<class T> static T pattern(int k) { unsigned long long p[] = { 0ull, 1ull, 0x0102030405060708ull, 0x8000000000000000ull, 0xffffffffffffffffull, 0x7ff8000000000001ull, 0x00000000ff7fc001ull, 0x80ull, 0x8000ull, 0x80000000ull };
+	unsigned long long x = p[k % 10]; T v; memcpy(&v, &x, sizeof(T)); return v; }
+template<class T> static bool same(T a, T b) { return memcmp(&a, &b, sizeof(T)) == 0; }
+template<class T> static int one_type(const char* name) {
+	Endian es[] = { ENDIAN_BIG, ENDIAN_LITTLE, ENDIAN_NATIVE };
+	for (int ei = 0; ei < 3; ei++) for (int k = 0; k < 10; k++) { Endian e = es[ei], e2 = es[(ei + 1) % 3]; T v = pattern<T>(k), w = pattern<T>(k + 3);
+		std::vector<byte> want; canon(want, v, e); canon(want, w, e2); canon(want, v, e2);          // order switched in mid-stream: affects only what follows
+		StreamBuffer b(e); b << v; b.setEndian(e2); b << w << v;
+		if (b.length() != (int)want.size() || memcmp(b.data(), want.data(), want.size()) != 0) { printf("REPRODUCED StreamBuffer << %s: bytes differ from the canonical encoding (order %d then %d, pattern %d)\n", name, (int)e, (int)e2, k); return 1; }
+		StreamBufferReader r(b.data(), b.length(), e); T a = r.read<T>(); r.setEndian(e2); T c = r.read<T>(), d = r.read<T>();
+		if (!same(a, v) || !same(c, w) || !same(d, v)) { printf("REPRODUCED StreamBufferReader %s reads back a different value (order %d then %d, pattern %d)\n", name, (int)e, (int)e2, k); return 1; }
+		String path = "/tmp/vf_c16_battery.bin";
+		{ File f(path, File::WRITE); f.setEndian(e); f << v; f.setEndian(e2); f << w << v; }
+		{ File f(path, File::READ); Array<byte> got = f.content(); if (got.length() != (int)want.size() || memcmp(got.data(), want.data(), want.size()) != 0) { printf("REPRODUCED File << %s: bytes differ (order %d then %d, pattern %d)\n", name, (int)e, (int)e2, k); return 1; } }
+		{ File f(path, File::READ); f.setEndian(e); T a2, c2, d2; f >> a2; f.setEndian(e2); f >> c2 >> d2; if (!same(a2, v) || !same(c2, w) || !same(d2, v)) { printf("REPRODUCED File >> %s (order %d then %d, pattern %d)\n", name, (int)e, (int)e2, k); return 1; } }
+		File(path).remove();
+		// sockets: the peer delivers the bytes in two pieces (a value split across OS reads must still be one value)
+		int fd[2]; if (socketpair(AF_UNIX, SOCK_STREAM, 0, fd) != 0) return 2;
+		{ Socket wr(fd[0]); wr.setEndian(e); wr << v; wr.setEndian(e2); wr << w << v;
+		  std::vector<byte> got(want.size()); size_t n = 0; while (n < got.size()) { ssize_t q = ::read(fd[1], got.data() + n, got.size() - n); if (q <= 0) break; n += q; }
+		  if (n != want.size() || memcmp(got.data(), want.data(), want.size()) != 0) { printf("REPRODUCED Socket << %s: bytes differ (order %d then %d, pattern %d)\n", name, (int)e, (int)e2, k); return 1; }
+		  size_t cut = 1 + k % (want.size() - 1);
+		  std::thread t([&] { if (::write(fd[1], want.data(), cut)) {} usleep(20000); if (::write(fd[1], want.data() + cut, want.size() - cut)) {} });
+		  Socket rd(fd[0]); rd.setEndian(e); T a3, c3, d3; rd >> a3; rd.setEndian(e2); rd >> c3 >> d3; t.join();
+		  if (!same(a3, v) || !same(c3, w) || !same(d3, v)) { printf("REPRODUCED Socket >> %s with the bytes arriving in two pieces cut at %d (order %d then %d, pattern %d)\n", name, (int)cut, (int)e, (int)e2, k); return 1; }
+		  close(fd[1]); }
+		// arrays: length x sizeof(T) canonical bytes, and the caller's array is untouched
+		for (int n = 0; n <= 5; n += (n < 3 ? 1 : 2)) { Array<T> arr; std::vector<byte> wa; for (int i = 0; i < n; i++) { arr << pattern<T>(k + i); canon(wa, pattern<T>(k + i), e); }
+			Array<T> keep = arr.clone(); StreamBuffer sb(e); sb << arr;
+			if (sb.length() != (int)wa.size() || (wa.size() && memcmp(sb.data(), wa.data(), wa.size()) != 0)) { printf("REPRODUCED StreamBuffer << Array<%s>(%d) in order %d\n", name, n, (int)e); return 1; }
+			{ File f(path, File::WRITE); f.setEndian(e); f << arr; } int sz = (int)File(path).size(); Array<byte> got = File(path).content(); File(path).remove();
+			if (sz != (int)wa.size() || (wa.size() && memcmp(got.data(), wa.data(), wa.size()) != 0)) { printf("REPRODUCED File << Array<%s>(%d) in order %d\n", name, n, (int)e); return 1; }
+			for (int i = 0; i < n; i++) if (!same(arr[i], keep[i])) { printf("REPRODUCED writing an Array<%s> in order %d changed the caller's array\n", name, (int)e); return 1; } }
+	}
+	return 0;
+}
 int main(int argc, char** argv)
 {
 	std::string cmd = argc > 1 ? argv[1] : "array";
@@ -33,6 +78,11 @@ int main(int argc, char** argv)
 		for (int i = 0; i < 4; i++) { byte want = e == ENDIAN_BIG ? byte(unsigned(v) >> (8 * (3 - i))) : byte(unsigned(v) >> (8 * i)); if (b[i] != want) { printf("REPRODUCED byte %d of unsigned in order %d\n", i, (int)e); return 1; } }
 		StreamBufferReader r(*b, e); unsigned a; unsigned short s; ULong l; r >> a >> s >> l;
 		if (a != (unsigned)v || s != (unsigned short)v || l != v) { printf("REPRODUCED scalar read back in order %d\n", (int)e); return 1; }
+		printf("OK\n"); return 0;
+	}
+	if (cmd == "battery") {
+		if (one_type<unsigned short>("unsigned short") || one_type<short>("short") || one_type<int>("int") || one_type<unsigned>("unsigned") || one_type<float>("float") ||
+		    one_type<Long>("Long") || one_type<ULong>("ULong") || one_type<double>("double")) return 1;
 		printf("OK\n"); return 0;
 	}
 	return 2;
